@@ -1,6 +1,8 @@
 //! simcore: one seed, one choice tape, one replay file.
 pub mod check;
 pub mod ctx;
+pub mod iso;
+pub mod meter;
 pub mod rng;
 pub mod shrink;
 pub mod tape;
